@@ -56,3 +56,67 @@ def run(ctx):
                        "the statement runs on an explicit transaction but reads through a fresh database snapshot: a MATCH after a CREATE in the "
                        "same transaction does not find the created data", e.loc(), sample={"fn": i, "snapshot_sources": srcs})
     ctx.floor("C24.1", "statement runners on caller-owned transactions", n, 1)
+
+    # ---- clause 2: the read view is per statement ----------------------------------------------------
+    # Names interned and data published while the transaction is open (labels, relationship types, the engine's own
+    # republication) are only visible to a view taken after them.  A view stored in the transaction handle at begin time and
+    # re-used for every statement is stale from the second statement on (`REMOVE n:NewLabel` resolves the label through it,
+    # finds nothing and silently does nothing).  Rule: the snapshot operand traces, within the frame of the function that
+    # executes the statement or through parameters of its callers, to a snapshot() call — never to a field of a handle.
+    ctx.rule("C24.2", "the read view of a statement run on a caller-owned transaction is taken in the statement's own call frame (fresh per statement), not loaded from a long-lived handle")
+    SNAP_CALLS = ("nervusdb::Db::snapshot", "nervusdb_storage::engine::GraphEngine::begin_read", "nervusdb_storage::engine::GraphEngine::snapshot")
+
+    def fresh(b, l, depth=3, seen=()):
+        calls, fields = backward_slice(b, l)
+        if any(c.name in SNAP_CALLS or (c.name.endswith("::snapshot") and c.name.startswith(("nervusdb", "<nervusdb"))) for c in calls):
+            return True, "snapshot() in %s" % b.id.split("::")[-1]
+        base, flds = place_path(b, l)
+        if base[0] == "arg" and not flds and depth > 0 and (b.id, base[1]) not in seen:
+            callers = sorted(F.callers().get(b.id, ()))
+            if not callers:
+                return False, "parameter of an entry point"
+            why = []
+            for cid in callers:
+                cb = F.bodies.get(cid)
+                if cb is None:
+                    continue
+                for c in cb.calls():
+                    if b.id not in F.call_targets(c) or base[1] - 1 >= len(c.args):
+                        continue
+                    al = op_local(c.args[base[1] - 1])
+                    ok, w = fresh(cb, al, depth - 1, seen + ((b.id, base[1]),)) if al is not None else (False, "constant")
+                    if not ok:
+                        return False, "caller %s passes %s" % (cid.split("::")[-1], w)
+                    why.append(w)
+            return bool(why), "; ".join(sorted(set(why)))
+        return False, "loaded from %s" % (".".join(f[0] for f in flds) if flds else base[0])
+
+    n2 = 0
+    for i, b in sorted(F.bodies.items()):
+        if not i.startswith(("nervusdb_capi", "nervusdb_pyo3", "nervusdb_cli", "nervusdb::", "<nervusdb::")):
+            continue
+        for e in b.calls():
+            if e.name.split("::")[-1] not in EXEC_NAMES or "nervusdb_query" not in e.name:
+                continue
+            txn_l = snap_l = None
+            for a in e.args:
+                l = op_local(a)
+                if l is None:
+                    continue
+                ty = b.local_ty(l)
+                if "WriteTxn" in ty and ty.startswith("&"):
+                    txn_l = l
+                elif "Snapshot" in ty and ty.startswith("&"):
+                    snap_l = l
+            if txn_l is None or snap_l is None:
+                continue
+            base, _ = place_path(b, txn_l)
+            if base[0] != "arg":
+                continue
+            n2 += 1
+            ok, why = fresh(b, snap_l)
+            ctx.instance("C24.2", "%s: %s read view: %s" % (i, site_key(e), why))
+            ctx.oblige(ok, "C24.2", "%s:%s:stale-read-view" % (i, site_key(e)),
+                       "the statement reads through a view that is not taken per statement (%s): label / relationship-type names and data published "
+                       "by earlier statements of the same transaction are invisible to it" % why, e.loc())
+    ctx.floor("C24.2", "statement runners on caller-owned transactions", n2, 1)
